@@ -530,10 +530,14 @@ class QuicConnection:
 
         :param now: The current time.
         """
-        network_path = self._network_paths[0]
-
         if self._state in END_STATES:
             return []
+
+        # No packet was accepted from the peer yet (server) or connect() was
+        # not called (client): there is nobody to send to.
+        if not self._network_paths:
+            return []
+        network_path = self._network_paths[0]
 
         # build datagrams
         builder = QuicPacketBuilder(
